@@ -132,6 +132,7 @@ def decOp (s : String) : Option (Op × List String) :=
     pure (.setChar x y ch, [])
   | ["trimseqs", n, fs] => (parseInt? n).map fun v => (.trimSeqs v (decBool fs), [])
   | ["autoalpha"] => some (.autoAlpha, [])
+  | ["revcomp"] => some (.revcomp, [])
   | _ => none
 
 def initModel (kind : String) (alpha : Nat) (rows : List (String × Seq)) : Bag × Bool :=
